@@ -53,7 +53,7 @@ JOBS["reader-layout"] = dict(module="MC_Reader", constants={"Slice": "layout"}, 
 
 JOBS["session"] = dict(module="MC_Session", constants=dict(Slice="session", Depth=12, MaxSteps=6000, Bug_ClauseLoopIgnoresCut="FALSE",
                                                            Bug_OrTailAfterCut="FALSE", Bug_NotStaysArmed="FALSE", Bug_StaleStopFlag="FALSE"),
-                       subst=BIP_SUBST, invariants=["EachRunIsItsOwnSLD", "Terminates", "Emit"], constraint="WithinBudget",
+                       subst=BIP_SUBST, invariants=["EachRunIsItsOwnSLD", "NoSpuriousTimeout", "Terminates", "Emit"], constraint="WithinBudget",
                        timeout={"quick": 1200, "thorough": 3600})
 
 TIMER_INV = ["NoFalseTimeout", "RealAnswers", "FastUndisturbed", "NoLateFire", "CancelReturns", "Emit"]
